@@ -326,7 +326,21 @@ where
             .with_context(|| "storage write with record creation failed")?;
         #[cfg(pearl_verif)]
         crate::verif::buggify_yield("write.after_dup_check").await;
-        let safe = self.inner.safe.read().await;
+        let mut safe = self.inner.safe.read().await;
+        while safe.active_blob.is_none() {
+            // Active blob was closed by a concurrent request (e.g. `close_active_blob_in_background`)
+            // after the check at the beginning of this function: create it again
+            drop(safe);
+            if let Err(e) = self.try_create_active_blob().await {
+                let already_exists = e
+                    .downcast_ref::<Error>()
+                    .map_or(false, |e| matches!(e.kind(), ErrorKind::ActiveBlobExists));
+                if !already_exists {
+                    return Err(e);
+                }
+            }
+            safe = self.inner.safe.read().await;
+        }
         let blob = safe
             .active_blob
             .as_ref()
